@@ -212,18 +212,60 @@ def run_history(acc, kind, behaviours):
     acc.add('nontrivial', (kind, 'history', tuple(behaviours)))
 
 
-def make(kind, line):
+def run_retry(acc, kind, m, first, reply_kind):
+    """the first attempt is not answered (or answered by another unit), the client is configured to retry, the
+    second attempt is answered: the reads of THAT attempt must add up to exactly the reply frame"""
+    framing = FRAMING2[kind]
+    clock = clients.VClock()
+    reply = server_reply(m) if reply_kind == 'normal' else bytes([m['fc'] | 0x80, 2])
+    frame = adu.build(framing, 1, reply, tid=2)
+    state = dict(n=0, t_second=None)
+
+    def peer(line, data):
+        state['n'] += 1
+        if state['n'] == 1:
+            if first == 'wrong-unit':
+                line.push(adu.build(framing, 2, reply, tid=1))
+            return
+        line.read_sizes = []
+        state['t_second'] = clock.t
+        line.push(frame)
+    line = clients.Line(clock, peer)
+    label = '%s' % bind.cls_name(m).replace('Request', '')
+    wit = dict(part='retry', client=kind, request=pdu.encode(m).hex(), reply=reply_kind, first=first)
+    with clients.Patched(clock, line):
+        c = make(kind, line, retries=2, retry_on_empty=True, retry_on_invalid=True)
+        clients.hook_logical_reads(c, line, lambda size: 'full')
+        try:
+            r = c.execute(bind.to_obj(dict(m, unit=1)))
+        except Exception as e:   # noqa
+            acc.violation('C14/%s/%s/%s/retry-raise:%s' % (label, framing, reply_kind, type(e).__name__), wit, repr(e)[:100], kind)
+            return
+    acc.inc('evaluations')
+    if state['n'] < 2:
+        return                      # this client did not retry (the retry policy itself is C13's subject)
+    asked = sum(s for s in line.read_sizes if s)
+    waited = clock.t - state['t_second']
+    if state['n'] == 2 and (asked != len(frame) or waited >= 2.9 or not hasattr(r, 'function_code')):
+        acc.violation('C14/%s/%s/%s/reads-on-retry' % (label, framing, reply_kind), wit,
+                      'second attempt answered with %d bytes: the client asked for %r, waited %.1f s and returned %r'
+                      % (len(frame), line.read_sizes, waited, type(r).__name__), kind)
+    acc.add('nontrivial', (kind, 'retry', label, first, reply_kind))
+
+
+def make(kind, line, **kw):
     """client of `kind`; 'x:subclass' uses a trivial subclass of the stock framer"""
     base, _, sub = kind.partition(':')
+    kw.setdefault('retries', 0)
     if not sub:
-        return clients.make_client(base, line, retries=0)
+        return clients.make_client(base, line, **kw)
     from pymodbus.client.sync import ModbusTcpClient
     from pymodbus.transaction import ModbusRtuFramer, ModbusAsciiFramer, ModbusBinaryFramer
     stock = {'rtu-over-tcp': ModbusRtuFramer, 'ascii-over-tcp': ModbusAsciiFramer, 'binary-over-tcp': ModbusBinaryFramer}[base]
 
     class Traced(stock):         # what an application does to trace or extend a framer
         pass
-    c = ModbusTcpClient('peer', framer=Traced, retries=0, timeout=3)
+    c = ModbusTcpClient('peer', framer=Traced, timeout=3, **kw)
     c.socket = clients.FakeSocket(line)
     return c
 
@@ -239,6 +281,12 @@ def shard_e2e(args):
         run_history(acc, kind, hist)
     for hist in (('silent', 'normal', 'exception'), ('silent', 'normal', 'normal', 'exception'), ('silent', 'silent', 'normal', 'exception')):
         run_history(acc, kind, hist)
+    if kind.startswith('serial-'):
+        for m in (dict(kind='req', fc=3, address=3, count=4), dict(kind='req', fc=1, address=1, count=19),
+                  dict(kind='req', fc=16, address=8, count=3, byte_count=6, registers=[1, 2, 3]), dict(kind='req', fc=6, address=6, value=0x1234)):
+            for first in ('silent', 'wrong-unit'):
+                for rk in ('normal', 'exception'):
+                    run_retry(acc, kind, m, first, rk)
     acc.sample(dict(client=kind, example='read 19 coils: frame %s' % adu.build(FRAMING2[kind], 1, server_reply(dict(kind='req', fc=1, address=1, count=19))).hex()))
     return acc
 
@@ -249,7 +297,7 @@ def shard(args):
 
 def run(tier, seed):
     parts = 12
-    shards = [('static', k, parts) for k in range(parts)] + [('e2e', k, tier) for k in ('serial-rtu', 'serial-ascii', 'serial-binary', 'rtu-over-tcp', 'rtu-over-tcp:subclass', 'ascii-over-tcp:subclass')]
+    shards = [('static', k, parts) for k in range(parts)] + [('e2e', k, tier) for k in ('serial-rtu', 'serial-ascii', 'serial-binary', 'rtu-over-tcp', 'rtu-over-tcp:subclass', 'ascii-over-tcp:subclass', 'tls')]
     acc = par.run_shards(shard, shards)
     return dict(acc=acc, level=LEVEL,
                 coverage=dict(
@@ -269,6 +317,8 @@ def replay(w):
         return bool(acc.violations), '\n'.join('%s: %s' % (v['sig'], v['msg']) for v in acc.violations) or 'no violation'
     if w['part'] == 'e2e':
         run_e2e(acc, w['client'], m, w['reply'])
+    elif w['part'] == 'retry':
+        run_retry(acc, w['client'], m, w['first'], w['reply'])
     else:
         obj = bind.to_obj(m)
         pred = obj.get_response_pdu_size()
